@@ -190,6 +190,43 @@ FeasSelfDestruct(S, a) == S.r.eip6780 => a \in S.crt
 (* what F1-F5 guarantee, and what the EIP-8264 survivor rule and Cancun's ban on storage wiping rely on *)
 FeasibleWorld(w) == \A a \in Addr : (w[a].ex /\ w[a].st # ZeroSt) => (w[a].nonce >= 1 \/ w[a].code # 0)
 
+(* ---------------------------------- generic dispatch ---------------------------------- *)
+(* e = [op, a, k, v, i]: one call inside a transaction, as logged by the drivers *)
+InTxOps == {"AddBalance", "SubBalance", "SetBalance", "SetNonce", "SetCode", "SetState", "SelfDestruct",
+            "CreateAccount", "EvmCreate", "ReadAccount", "ReadSlot", "SetTransient", "AddAddress", "AddSlot",
+            "AddRefund", "SubRefund", "AddLog", "Snapshot", "Revert"}
+CanOp(S, e) ==
+  CASE e.op = "SubBalance"    -> CanSubBalance(S, e.a, e.v)
+    [] e.op = "SetNonce"      -> FeasSetNonce(S, e.a, e.v)
+    [] e.op = "SetCode"       -> FeasSetCode(S, e.a, e.v)
+    [] e.op = "SetState"      -> FeasSetState(S, e.a)
+    [] e.op = "SelfDestruct"  -> FeasSelfDestruct(S, e.a)
+    [] e.op = "CreateAccount" -> CanCreateAccount(S, e.a)
+    [] e.op = "EvmCreate"     -> CanEvmCreate(S, e.a)
+    [] e.op = "SubRefund"     -> CanSubRefund(S, e.v)
+    [] e.op = "Revert"        -> CanRevert(S, e.i)
+    [] OTHER                  -> e.op \in InTxOps
+ApplyOp(S, e) ==
+  CASE e.op = "AddBalance"    -> AddBalance(S, e.a, e.v)
+    [] e.op = "SubBalance"    -> SubBalance(S, e.a, e.v)
+    [] e.op = "SetBalance"    -> SetBalance(S, e.a, e.v)
+    [] e.op = "SetNonce"      -> SetNonce(S, e.a, e.v)
+    [] e.op = "SetCode"       -> SetCode(S, e.a, e.v)
+    [] e.op = "SetState"      -> SetState(S, e.a, e.k, e.v)
+    [] e.op = "SelfDestruct"  -> SelfDestruct(S, e.a)
+    [] e.op = "CreateAccount" -> CreateAccount(S, e.a)
+    [] e.op = "EvmCreate"     -> EvmCreate(S, e.a)
+    [] e.op = "ReadAccount"   -> ReadAccount(S, e.a)
+    [] e.op = "ReadSlot"      -> ReadSlot(S, e.a, e.k)
+    [] e.op = "SetTransient"  -> SetTransient(S, e.a, e.k, e.v)
+    [] e.op = "AddAddress"    -> AddAddress(S, e.a)
+    [] e.op = "AddSlot"       -> AddSlot(S, e.a, e.k)
+    [] e.op = "AddRefund"     -> AddRefund(S, e.v)
+    [] e.op = "SubRefund"     -> SubRefund(S, e.v)
+    [] e.op = "AddLog"        -> AddLog(S, e.v)
+    [] e.op = "Snapshot"      -> Snapshot(S)
+    [] e.op = "Revert"        -> Revert(S, e.i)
+
 (* ---------------------------------- observables ---------------------------------- *)
 (* everything a caller can read through the getters, for every address and slot *)
 ProjAcc(S, a) ==
